@@ -19,6 +19,8 @@ pub fn dispatch(ctx: &Ctx) -> i32 {
         "C07" => codeccfg::check(ctx),
         "C12" => nopanic::check(ctx),
         "C16" => widths::check(ctx),
+        "C18" => meta::check(ctx),
+        "C19" => specs::check(ctx),
         "C11" => frag::check(ctx, "C11"),
         "C06" => contract::check(ctx, contract::Which::C06),
         p => {
@@ -37,6 +39,8 @@ pub fn replay(prop: &str, case: &serde_json::Value) -> i32 {
         Some(e) if e.starts_with("E2-c07") => codeccfg::replay(case),
         Some(e) if e.starts_with("E2-c12") => nopanic::replay(case),
         Some(e) if e.starts_with("E2-c16") => widths::replay(case),
+        Some("E2-c18") => meta::replay(case),
+        Some(e) if e.starts_with("E2-c19") => specs::replay(case),
         Some("E2-annexb") | Some("E2-annexb-mux") | Some("E2-adts") => reframe::replay(case),
         e => {
             eprintln!("unknown engine {e:?}");
@@ -52,6 +56,8 @@ pub mod reframe;
 pub mod codeccfg;
 pub mod nopanic;
 pub mod widths;
+pub mod meta;
+pub mod specs;
 
 use oracle::report::{Meta, Tally};
 
